@@ -446,7 +446,11 @@ def run(case):
     fp.on = True
     exc = None
     try:
-        iso.modify_file_in_place(io.BytesIO(data), case['length'], path)
+        payload = io.BytesIO(data)
+        # the payload is read from its beginning wherever the caller left its position (a file object just filled by
+        # write(), or reused from an earlier call, is at its end)
+        payload.seek([0, len(data), len(data) // 2][(case['length'] + case['fp_len']) % 3])
+        iso.modify_file_in_place(payload, case['length'], path)
     except Exception as e:  # noqa
         exc = e
     fp.on = False
